@@ -206,6 +206,7 @@ func namePool() []string {
 
 var ip4a, ip4b = net.IP{192, 0, 2, 1}, net.IP{10, 255, 0, 254}
 var ip6a, ip6b = net.ParseIP("2001:db8::1"), net.ParseIP("::")
+var ip6mapped = net.ParseIP("::ffff:192.0.2.1") // 16-byte IPv4-mapped address: legal AAAA content
 
 func httpsPool(thorough bool) []dns.HTTPS {
 	var out []dns.HTTPS
@@ -351,6 +352,10 @@ func Run(r *ev.Run) {
 		}
 		checkPkgMessage(r, dns.Message{QR: 1, Answer: []dns.RR{{Name: "o.example", Type: 65, Class: 1, TTL: 1, Data: dns.HTTPS{Priority: 1, Target: n}}}}, "https-target:"+tag, true)
 	}
+	// IPv4-mapped IPv6 addresses are ordinary AAAA / ipv6hint content (16 bytes on the wire)
+	checkPkgMessage(r, dns.Message{QR: 1, Answer: []dns.RR{{Name: "m.example", Type: 28, Class: 1, TTL: 1, Data: ip6mapped}}}, "aaaa-v4-mapped", true)
+	checkPkgMessage(r, dns.Message{QR: 1, Answer: []dns.RR{{Name: "m.example", Type: 65, Class: 1, TTL: 1, Data: dns.HTTPS{Priority: 1, IPv6Hint: []net.IP{ip6mapped, ip6a}}}}}, "ipv6hint-v4-mapped", true)
+	checkPkgMessage(r, dns.Message{QR: 1, Answer: []dns.RR{{Name: "m.example", Type: 1, Class: 1, TTL: 1, Data: net.IP{0, 0, 0, 0}}, {Name: "m.example", Type: 1, Class: 1, TTL: 1, Data: net.IP{255, 255, 255, 255}}}}, "a-boundary", true)
 	// ---- A3 HTTPS parameter subsets; OPT option lists ----
 	hp := httpsPool(r.Thorough())
 	for i, h := range hp {
@@ -453,6 +458,54 @@ func Run(r *ev.Run) {
 				tag = "names:root"
 			}
 			checkRefMessage(r, m, tag)
+		}
+	}
+	// hand-compressed forms other encoders may produce: a pointer whose target is itself a pointer (chains of 1..4 hops),
+	// pointers into the middle of a name, pointers from RDATA names to owner names and to RDATA names
+	for hops := 1; hops <= 4; hops++ {
+		for _, tail := range []string{"", "example.com"} {
+			var w []byte
+			w = append(w, 0, 9, 0x81, 0x80, 0, 1, 0, byte(hops+1), 0, 0, 0, 0)
+			qn := "www.example.com"
+			for _, l := range strings.Split(qn, ".") {
+				w = append(w, byte(len(l)))
+				w = append(w, l...)
+			}
+			w = append(w, 0, 0, 1, 0, 1)
+			target := 12 // "www.example.com"
+			want := &dnsref.Msg{ID: 9, Flags: 0x8180, Q: []dnsref.Question{{Name: qn, Type: 1, Class: 1}}}
+			for h := 0; h <= hops; h++ {
+				at := len(w)
+				name := qn
+				if h == 0 && tail != "" {
+					// first owner: label + pointer into the middle of the question name ("example.com" at offset 16)
+					w = append(w, 3, 'a', 'p', 'i', 0xc0, 16)
+					name = "api.example.com"
+				} else {
+					w = append(w, 0xc0|byte(target>>8), byte(target))
+					if tail != "" {
+						name = "api.example.com"
+					}
+				}
+				target = at // the next owner points at this owner field (which is a bare pointer from the 2nd record on)
+				w = append(w, 0, 1, 0, 1, 0, 0, 0, byte(h+1), 0, 4, 192, 0, 2, byte(h))
+				want.Sec[0] = append(want.Sec[0], dnsref.RR{Name: name, Type: 1, Class: 1, TTL: uint32(h + 1), Fields: []dnsref.Field{{Raw: []byte{192, 0, 2, byte(h)}}}})
+			}
+			replay := map[string]any{"wire": fmt.Sprintf("%x", w), "hops": hops}
+			if ref, err := dnsref.Decode(w); err != nil || ref.Canon() != want.Canon() {
+				ev.ToolError("c13 pointer-chain generator is wrong: %v\n%s\n%s", err, want.Canon(), fmt.Sprintf("%x", w))
+			}
+			var xm dnsmessage.Message
+			if err := xm.Unpack(w); err != nil {
+				ev.ToolError("dnsmessage rejects the pointer-chain packet: %v", err)
+			}
+			got, err := dns.DecodeMessage(w)
+			if err != nil {
+				r.Violation("decode-rejects-valid:pointer-to-pointer", fmt.Sprintf("DecodeMessage rejects a packet whose owner names are pointers to pointers (%d hops): %v", hops, err), replay)
+			} else if g, err := fromPkg(got); err != nil || g.Canon() != want.Canon() {
+				r.Violation("decode-differs:pointer-to-pointer", fmt.Sprintf("err=%v\n got  %s\n want %s", err, g.Canon(), want.Canon()), replay)
+			}
+			r.Eval(string(w), "decode-ok-pointer-chain")
 		}
 	}
 	// x/net-packed packets (its own compression) -> DecodeMessage
